@@ -62,6 +62,8 @@ Inductive cexpr :=
 | CEMethod (recv : cexpr) (m : string) (args : cexprs)   (* recv.m(args) on an os.FileInfo / FileMode *)
 | CEStruct (ty : string) (fs : cfields)        (* T{F: e, ...}; fields of payload structs by json key *)
 | CEAddr (e : cexpr)                           (* &T{...} *)
+| CEDeref (e : cexpr)                          (* *e, e a *string: nil or the string *)
+| CEUnit                                       (* struct{}{} *)
 | CESlice (ty : string) (es : cexprs)          (* []T{e, ...} *)
 | CEMakeMap | CEMakeSlice                      (* make(map[..]..., ..) / make([]T, 0, ..) *)
 | CEAppend (a : cexpr) (es : cexprs)           (* append(a, e, ...) *)
@@ -311,7 +313,7 @@ Definition mk_event (ty : string) (fs : list (string * cval)) : option event :=
 Definition ceq (a b : cval) : option bool :=
   match a, b with
   | VNil, VNil => Some true
-  | VNil, (VErr _ | VTask _ | VGraph _ | VMap _ | VList _) | (VErr _ | VTask _ | VGraph _ | VMap _ | VList _), VNil => Some false
+  | VNil, (VErr _ | VTask _ | VGraph _ | VMap _ | VList _ | VStr _) | (VErr _ | VTask _ | VGraph _ | VMap _ | VList _ | VStr _), VNil => Some false
   | VBool x, VBool y => Some (Bool.eqb x y)
   | VInt x, VInt y => Some (Z.eqb x y)
   | VStr x, VStr y => Some (String.eqb x y)
@@ -416,6 +418,27 @@ Definition prim_call (f : string) (vs : list cval) (σ : cstate) : option (cval 
                   | None => Some (VTuple [VNil; VErr EGen], σ)
                   end
     | _ => None end
+  else if name_eqb f "readEvents" then
+    (* the log as read: an opaque token; its replay is [cs_load] *)
+    match vs with [VStr _] => Some (VTuple [VGlobal "<log>"; VNil], σ) | _ => None end
+  else if name_eqb f "replayEvents" then
+    match vs with
+    | [VGlobal l] => if name_eqb l "<log>" then
+                       match cs_load σ with
+                       | Some g => Some (VTuple [VGraph g; VNil], σ)
+                       | None => Some (VTuple [VNil; VErr EGen], σ)
+                       end else None
+    | _ => None end
+  else if name_eqb f "appendEventsAtomically" then
+    (* rewrite of the whole log = what was read ++ the new events; recorded as the new events *)
+    match vs with
+    | [VStr _; VGlobal l; new] =>
+        if name_eqb l "<log>" then
+          match as_list new with
+          | Some l' => match as_events l' with Some es => Some (VNil, with_write σ es) | None => None end
+          | None => None end
+        else None
+    | _ => None end
   else if name_eqb f "appendEvents" then
     match vs with
     | [VStr _; l] => match as_list l with
@@ -465,7 +488,7 @@ Definition is_prim (f : string) : bool :=
     ["strings.TrimSpace"; "strings.ContainsAny"; "strings.HasPrefix"; "strings.Contains"; "filepath.Clean";
      "filepath.IsAbs"; "filepath.Join"; "filepath.Dir"; "getEventsPath"; "errors.New"; "fmt.Errorf"; "strings.Join";
      "formatTime"; "newEvent"; "validateTransition"; "validateClaimInvariant"; "hasCycle"; "readyTasks"; "loadGraph";
-     "appendEvents"; "newShortID"; "newUUID"; "os.Stat"; "os.IsNotExist"; "captureResultEvidence"; "deps.isnil"; "fmt.Println"].
+     "appendEvents"; "readEvents"; "replayEvents"; "appendEventsAtomically"; "newShortID"; "newUUID"; "os.Stat"; "os.IsNotExist"; "captureResultEvidence"; "deps.isnil"; "fmt.Println"].
 
 (** * Expressions (left to right; calls thread the state) *)
 Section ceval.
@@ -619,6 +642,8 @@ Section ceval.
             end
         | None => None
         end
+    | CEDeref a => match ceval ρ σ a with Some (VStr x, σ1) => Some (VStr x, σ1) | _ => None end
+    | CEUnit => Some (VUnit, σ)
     | CEUnknown _ => None
     end
   with ceval_args (ρ : cenv) (σ : cstate) (l : cexprs) : option (list cval * cstate) :=
